@@ -480,6 +480,8 @@ func (p *projSpec) renderTarget(t *targetSpec) string {
 			args = append(args, fmt.Sprintf("late_%s()", t.Name))
 		case "structfn":
 			args = append(args, fmt.Sprintf("RULES_%s.render()", t.Name))
+		case "kwonly":
+			args = append(args, fmt.Sprintf("kw_%s(1, b = 2)", t.Name))
 		case "cacheonce":
 			pre = append(pre, fmt.Sprintf("    CACHE0.once(\"k_%s\", lambda: %s)", t.Name, r.Val.render()))
 			args = append(args, "CACHE0")
@@ -513,6 +515,11 @@ func (p *projSpec) renderTarget(t *targetSpec) string {
 		if r := &t.Refs[i]; r.Kind == "twins" {
 			fmt.Fprintf(&sb, "def mk_%s(v, d = 0):\n    def inner(x = d):\n        return (v, x)\n    return inner\n\n", t.Name)
 			fmt.Fprintf(&sb, "TW_%s_a = mk_%s(%s)\nTW_%s_b = mk_%s(%s, d = %s)\n\n", t.Name, t.Name, r.Val.render(), t.Name, t.Name, r.Val.render(), r.Val2.render())
+		}
+	}
+	for i := range t.Refs {
+		if r := &t.Refs[i]; r.Kind == "kwonly" {
+			fmt.Fprintf(&sb, "def kw_%s(a, *, b, c = %s):\n    return (a, b, c)\n\n", t.Name, r.Val.render())
 		}
 	}
 	for i := range t.Refs {
